@@ -16,7 +16,8 @@ model:
   S t=<g|l|r> err=<0|1> cs=<type:status:reason,…>   -> cs=<…>
 judge (the property on what the real code did; see `judgeR`, `judgeH`):
   R n=<int> ret=<ok|err> hup=<0|1> chg=<0|1> served=<int|->
-  H obs=<o;o;…>  o = ct=/w=/rr=/api=/v=/rv=/hup=/chg=/served=/st=/gw=/ls=/rt=/ready=/closes=/panic=
+  P plus=<0|1> obs=<o;o|o;o;o>         several controller processes, segments separated by '|'
+  H plus=<0|1> obs=<o;o;…>  o = ct=/w=/rr=/api=/v=/fv=/rv=/hup=/chg=/served=/run=/st=/gw=/ls=/rt=/ready=/closes=/panic=
 -/
 namespace NGF.C12
 open NGF.Proto NGF.Reload NGF.HandlerVer
@@ -155,10 +156,12 @@ def parseObs (s : String) : Option Obs := do
   let rr ← optField fs "rr" (fun s => if s == "ok" then some true else if s == "err" then some false else none)
   let api ← optField fs "api" parseBool
   let v ← optField fs "v" String.toNat?
+  let fv ← optField fs "fv" String.toNat?
   let rv ← optField fs "rv" String.toNat?
   let hup ← field fs "hup" >>= parseBool
   let chg ← field fs "chg" >>= parseBool
   let served ← optField fs "served" String.toInt?
+  let run ← field fs "run" >>= parseBool
   let st ← field fs "st" >>= parseBool
   let gw ← field fs "gw"
   let ls ← field fs "ls"
@@ -166,7 +169,7 @@ def parseObs (s : String) : Option Obs := do
   let ready ← field fs "ready" >>= parseBool
   let closes ← field fs "closes" >>= String.toNat?
   let panic ← field fs "panic" >>= parseBool
-  pure ⟨ct, w, rr, api, v, rv, hup, chg, served, st, gw, ls, rt, ready, closes, panic⟩
+  pure ⟨ct, w, rr, api, v, fv, rv, hup, chg, served, run, st, gw, ls, rt, ready, closes, panic⟩
 
 def judgeLine (line : String) : String :=
   match line.splitOn " " with
@@ -179,15 +182,26 @@ def judgeLine (line : String) : String :=
       | some c => "fail " ++ c
     | _, _, _, _, _ => "bad-op"
   | "H" :: fs =>
-    match field fs "obs" with
-    | some obs =>
+    match field fs "obs", field fs "plus" >>= parseBool with
+    | some obs, some plus =>
       match (if obs == "-" then some [] else (obs.splitOn ";").mapM parseObs) with
       | some os =>
-        match judgeH os with
+        match judgeH plus os with
         | none => "ok"
         | some c => "fail " ++ c
       | none => "bad-op"
-    | none => "bad-op"
+    | _, _ => "bad-op"
+  | "P" :: fs =>
+    match field fs "obs", field fs "plus" >>= parseBool with
+    | some obs, some plus =>
+      match (obs.splitOn "|").mapM (fun seg =>
+          if seg == "" || seg == "-" then some [] else (seg.splitOn ";").mapM parseObs) with
+      | some segs =>
+        match judgeP plus segs 0 with
+        | none => "ok"
+        | some c => "fail " ++ c
+      | none => "bad-op"
+    | _, _ => "bad-op"
   | _ => "bad-op"
 
 def driver (args : List String) : IO UInt32 := do
